@@ -82,6 +82,8 @@ pub struct LspContext {
     error: Diagnostics,
     codegen: Option<Arc<Mutex<CodegenContext>>>,
     parsing_source: Arc<Mutex<LspParsingSource>>,
+    /// The files the client currently holds diagnostics for
+    files_with_diagnostics: Vec<String>,
     shutdown_manager: Arc<Mutex<ShutdownManager>>,
     #[cfg(test)]
     responses: Arc<Mutex<Vec<lsp_server::Response>>>,
@@ -165,6 +167,7 @@ impl LspContext {
             error: Diagnostics::default(),
             codegen: None,
             parsing_source: Arc::new(Mutex::new(LspParsingSource::new())),
+            files_with_diagnostics: vec![],
             shutdown_manager: Arc::new(Mutex::new(ShutdownManager::new())),
             #[cfg(test)]
             responses: Arc::new(Mutex::new(vec![])),
